@@ -242,12 +242,28 @@ def merge(results):
     return tot
 
 
+def _guarded(args):
+    """a task must never take its worker down (a dead worker makes Pool.map wait for ever)"""
+    fn, task = args
+    try:
+        return ('ok', fn(task))
+    except BaseException as e:          # incl. a stray watchdog exception
+        import traceback
+        tsh.Watch.active = False
+        return ('err', '%s: %s\n%s' % (type(e).__name__, e, traceback.format_exc()[-1500:]))
+
+
 def run_parallel(tasks, nproc=8, fn=run_task):
     if nproc <= 1 or len(tasks) <= 1:
         return [fn(t) for t in tasks]
     ctx = mp.get_context('fork')
+    limit = float(os.environ.get('VERIF_POOL_TIMEOUT', '5400'))
     with ctx.Pool(min(nproc, len(tasks))) as pool:
-        return pool.map(fn, tasks)
+        res = pool.map_async(_guarded, [(fn, t) for t in tasks]).get(timeout=limit)
+    bad = [r[1] for r in res if r[0] != 'ok']
+    if bad:
+        raise RuntimeError('stream task failed: ' + bad[0])
+    return [r[1] for r in res]
 
 
 def vm_stream(seed, total, profile='general', want=(), nproc=8, chunk=2500):
